@@ -70,6 +70,12 @@ type DepSpec struct {
 	Name string `json:"name,omitempty"`
 }
 
+// TagSpec is a tag of a service registered at run time.
+type TagSpec struct {
+	Name string `json:"name"`
+	Prio int    `json:"prio"`
+}
+
 type Op struct {
 	Op    string    `json:"op"`
 	Name  string    `json:"name,omitempty"`
@@ -78,6 +84,7 @@ type Op struct {
 	Ctor  string    `json:"ctor,omitempty"`
 	Deps  []DepSpec `json:"deps,omitempty"`
 	Scope string    `json:"scope,omitempty"`
+	Tags  []TagSpec `json:"tags,omitempty"` // overridesvc: tags of the service registered at run time
 	G     int       `json:"g,omitempty"`
 	Reps  int       `json:"reps,omitempty"`
 	Seed  int64     `json:"seed,omitempty"`
